@@ -14,8 +14,16 @@ def finish(ctx, behs):
     # the BDD unique table is process-global state: histories run sequentially in this process, each
     # starting from an empty table (checked: live == 0 at the start line is implied by the first projection)
     events = []
+    fresh = {}
     for b in behs:
-        for ev in bddfam.run_history(b):
+        if b.get('preamble'):
+            fresh.setdefault(b['preamble'], []).append(b)
+    done = {}
+    for pre, bs in fresh.items():           # process-global state: terminals first created from ints / bools / by nodes()
+        for b, evs in zip(bs, bddfam.run_fresh(ctx, pre, 'bdd-history', bs)):
+            done[b['trace']] = evs
+    for b in behs:
+        for ev in (done[b['trace']] if b['trace'] in done else bddfam.run_history(b)):
             ev['tid'] = len(events)
             events.append(ev)
     ctx.evaluations += len(events)
@@ -112,6 +120,12 @@ def run(ctx):
             o2 = o2 + ['z']
         behs.append({'order': order, 'calls': expr_history(rnd, order, rnd.randint(12, 30), order2=o2), 'family': 'random history, two orderings',
                      'build': rnd.choice(['expr', 'node']), 'restrict_arg': rnd.choice(['bool', 'int'])})
+    # the same kind of history in fresh interpreters whose terminal nodes are first created from ints / bools / nodes()
+    for pre in ('int-terminals', 'bool-terminals', 'nodes-first'):
+        for _ in range(60 if q else 1500):
+            order = rnd.choice(orders)
+            behs.append({'order': order, 'calls': expr_history(rnd, order, rnd.randint(10, 24)), 'family': 'random history, fresh interpreter (%s)' % pre,
+                         'build': rnd.choice(['expr', 'node']), 'restrict_arg': rnd.choice(['bool', 'int']), 'preamble': pre})
     for b in behs:
         ops = [c['op'] for c in b['calls']]
         if ('release' in ops or 'park' in ops) and len(ops) > 6:
